@@ -26,6 +26,7 @@ CONSTANTS
   defaultInitValue = defaultInitValue
   NFree = %(nfree)d
   Menu = %(menu)s
+  Menu2 = %(menu2)s
 CHECK_DEADLOCK FALSE
 VIEW View
 INVARIANTS
@@ -325,12 +326,14 @@ def run(pid, tier):
         d11 = "D11" in active or any(f["id"] == "D11" and f["status"] == "known" and pid in f["properties"] for f in load_findings())
 
         # ---- MC + RP over the bounded universe
-        universes = [(2, "{1,2,3,4,5,6,7,8,9,10,11,12,13,14,15,21,22,24}")] if tier == "quick" else \
-                    [(2, "{1,2,3,4,5,6,7,8,9,10,11,12,13,14,15,16,17,18,19,20,21,22,23,24}"), (3, "{1,2,4,6,8,9,11,12,13,14,16,17,22}")]
+        ALLSHAPES = "{" + ",".join(str(i) for i in range(1, 28)) + "}"
+        # (free relations, shapes of the first one, shapes of the others)
+        universes = [(2, ALLSHAPES, "{1,3,4,6,9,11,13,22,27}")] if tier == "quick" else \
+                    [(2, ALLSHAPES, ALLSHAPES), (3, "{1,2,4,6,8,9,11,12,13,14,16,17,22,25,26,27}", "{1,4,6,9,11,22,27}")]
         states = trans = 0
         allmodels = []
-        for nfree, menu in universes:
-            cfg = MC_CFG % {"devs": DEVS_CURRENT, "nfree": nfree, "menu": menu}
+        for nfree, menu, menu2 in universes:
+            cfg = MC_CFG % {"devs": DEVS_CURRENT, "nfree": nfree, "menu": menu, "menu2": menu2}
             res = run_tlc("WGraphMC", cfg, sc, cache=True, timeout=3000)
             if res.violated:
                 raise Infra("design-level invariant(s) %s violated on the Impl layer of spec/WGraph.tla (universe NFree=%d): the "
